@@ -41,6 +41,13 @@ Next == /\ ~done /\ done' = TRUE
              /\ \A v \in Boundary(LzMember.size, flen) : Emit(<<"lzh-field", "entry.size", v>>, SetBytes(img, ent + 8, v), 2)
              /\ \A v \in Boundary(blk, flen) : Emit(<<"lzh-field", "entry.block", v>>, SetBytes(img, ent + 4, v), 2)
              /\ \A r \in 1..(NRand \div 4) : Emit(<<"lzh-random", Seed, r>>, Mutated(img, Seed * 607 + r), 2)
+        \* an archive from the independent encoder with an unused trailing index slot, index slack and an EMPTY LAST member (its block header is the
+        \* last thing in the file): every truncation, and random corruption
+        /\ LET ms == << [name |-> <<97>>, size |-> 5, kind |-> Uncompressed, stored |-> <<11,12,13,14,15>>], [name |-> <<122,122>>, size |-> 0, kind |-> Uncompressed, stored |-> <<>>] >>
+               img == RefEncode(ms, 1, 2)  flen == Len(img) IN
+             /\ Emit(<<"ref-base">>, img, 2)
+             /\ \A k \in 0..(flen - 1) : Emit(<<"ref-prefix", k>>, Trunc(img, k), 2)
+             /\ \A r \in 1..(NRand \div 4) : Emit(<<"ref-random", Seed, r>>, Mutated(img, Seed * 613 + r), 2)
         /\ \A r \in 1..NRand : LET bi == 1 + (r % Len(Base))  img == FlatSegs(Layout(Base[bi])) IN
              Emit(<<"random", Seed, r>>, Mutated(img, Seed * 601 + r), Len(Base[bi]))
 Spec == Init /\ [][Next]_done
